@@ -92,12 +92,16 @@ def parse_jaqal_string(
 
     sexpr, usepulses = parse_to_sexpression(jaqal, return_usepulses=True)
 
-    circuit = build(
-        sexpr,
-        inject_pulses=inject_pulses,
-        autoload_pulses=autoload_pulses,
-        import_path=import_path,
-    )
+    try:
+        circuit = build(
+            sexpr,
+            inject_pulses=inject_pulses,
+            autoload_pulses=autoload_pulses,
+            import_path=import_path,
+        )
+    except RecursionError:
+        # The builder descends recursively into nested blocks
+        raise JaqalError("The program's blocks are nested too deeply")
 
     if expand_macro:
         # preserve_definitions maintains old API behavior
